@@ -181,6 +181,10 @@ def api_answer(op, env):
             # (re)define the class a forward reference names
             env['ns'][op[1]] = type(op[1], (), {'tag': op[2]})
             return None
+        if kind == 'define_bt':
+            # the same, the class being decorated by @beartype (beartype notices redefinitions of such classes and clears its caches)
+            env['ns'][op[1]] = beartype(type(op[1], (), {'tag': op[2], '__module__': '__c14__'}))
+            return None
         if kind == 'fwd':
             # a decorated callable annotated by the *name* of a class resolved in env['ns']
             ns = env['ns']
@@ -255,12 +259,12 @@ def run_history(case):
             env = new_env()
             # definitions are part of the query's arguments (the program text), not of the cache history
             for op in case['ops'][:i]:
-                if op[0] == 'define':
+                if op[0] in ('define', 'define_bt'):
                     api_answer(op, env)
             return api_answer(case['ops'][i], env)
         return go
     hist = in_fork(whole)
-    fresh = [in_fork(alone(i)) if op[0] not in ('gc', 'clear', 'define') else None for i, op in enumerate(case['ops'])]
+    fresh = [in_fork(alone(i)) if op[0] not in ('gc', 'clear', 'define', 'define_bt') else None for i, op in enumerate(case['ops'])]
     return {'history': hist, 'fresh': fresh}
 
 
